@@ -152,6 +152,30 @@ theorem conv_down (ms : Nat) (h : ms < u64) : convert ms (1000, 1, true) = (ms /
   rw [gmul _ _ (by omega), gmul _ _ (by omega), gadd _ _ (by omega)]
   simp
 
+open AwsVerif.Gen.Math in
+theorem gmul_sat (a b : Nat) : Overflow.aws_mul_u64_saturating a b = min (a * b) 18446744073709551615 := by
+  by_cases h : a * b ≥ 18446744073709551616
+  · simp only [Overflow.aws_mul_u64_saturating, h, if_true]; omega
+  · simp only [Overflow.aws_mul_u64_saturating, h, if_false]
+    rw [Nat.mod_eq_of_lt (by omega)]; omega
+
+open AwsVerif.Gen.Math in
+theorem gadd_sat (a b : Nat) : Overflow.aws_add_u64_saturating a b = min (a + b) 18446744073709551615 := by
+  by_cases h : a + b ≥ 18446744073709551616
+  · simp only [Overflow.aws_add_u64_saturating, h, if_true]; omega
+  · simp only [Overflow.aws_add_u64_saturating, h, if_false]
+    rw [Nat.mod_eq_of_lt (by omega)]; omega
+
+/-- seconds to a finer unit, exact or saturated -/
+theorem conv_up_sat (x k : Nat) (hk : 0 < k) : convert x (1, k, false) = (min (k * x) 18446744073709551615, 0) := by
+  have e1 : x / 1 = x := by omega
+  have e2 : (x + 18446744073709551616 - x * 1 % 18446744073709551616) % 18446744073709551616 = 0 := by omega
+  have c : ¬ ¬ (1 > 0 ∧ k > 0) := by omega
+  simp only [convert, AwsVerif.Gen.Math.Clock.aws_timestamp_convert, AwsVerif.Gen.Math.Clock.aws_timestamp_convert_u64, c, if_false,
+    Bool.false_eq_true, e1, e2]
+  rw [gmul_sat x k, gmul_sat 0 k, gadd_sat]
+  simp [Nat.mul_comm]
+
 /-! ### generated formatter dispatch and format strings against the closed forms -/
 
 /-- the six UTC formatter cases read `gmt_time` with "%a, %d %b %Y %H:%M:%S GMT", "%Y-%m-%dT%H:%M:%SZ",
